@@ -205,6 +205,8 @@ structure In where
   sig : Bool := false
   /-- handler future of request `rid`: `none` = Pending, `some b` = Ready with a body of kind `b` -/
   hReady : Nat → Option BodyKind := fun _ => some .empty
+  /-- the handler future of request `rid` resolves to `Err` (→ `send_error_response`, status 500) -/
+  hErr : Nat → Bool := fun _ => false
   /-- stream body of request `rid`: second chunk available -/
   bReady : Nat → Bool := fun _ => true
   /-- `poll_write` accepts what it is given -/
@@ -255,11 +257,21 @@ def dropReceiver (s : St) (rid : Nat) : St :=
   | some (o, _) => if o = rid then { s with payload := some (o, true) } else s
   | none => s
 
+/-- `send_error_response` (l.515) is a copy of `send_response` for `BoxBody` error bodies: the same
+`close_after_response = DRAINING ∨ close_for_unread_payload` decision, the same tail -/
+abbrev sendErrorResponse (c : Cfg) (s : St) (rid status : Nat) (body : BodyKind) : St :=
+  sendResponse c s rid status body
+
+/-- the handler future of `rid` is Ready: `Ok(res)` → `send_response`, `Err(err)` →
+`send_error_response` with the error's response (l.625–635, l.851–864) -/
+def handlerResp (c : Cfg) (i : In) (s : St) (rid : Nat) (body : BodyKind) : St :=
+  if i.hErr rid then sendErrorResponse c s rid 500 body else sendResponse c s rid 200 body
+
 /-- `handle_request` (l.793): call the service and poll the new future once -/
 def handleRequest (c : Cfg) (i : In) (s : St) (rid : Nat) (kind : ReqKind) : St × List Out :=
   let s := { s with st := .service rid kind }
   match i.hReady rid with
-  | some body => (sendResponse c (dropReceiver s rid) rid 200 body, [Out.call rid kind])
+  | some body => (handlerResp c i (dropReceiver s rid) rid body, [Out.call rid kind])
   | none => (s, [Out.call rid kind])
 
 /-- `Payload::create` for a request with a body (l.924–934) -/
@@ -358,13 +370,13 @@ def respStep (c : Cfg) (i : In) (s : St) : Iter :=
       | .item rid kind ka :: ms =>
         -- `codec.set_encode_ctx(ctx)` (l.588)
         .next { s with messages := ms, st := .service rid kind, codecKA := ka } [Out.call rid kind]
-      | .error status :: ms => .next (sendResponse c { s with messages := ms } 0 status .empty) []
+      | .error status :: ms => .next (sendErrorResponse c { s with messages := ms } 0 status .empty) []
       | [] =>
         -- l.611–618
         .stop { s with keepAlive := s.payload.isNone && s.codecKA } [] false
   | .service rid _ =>
     match i.hReady rid with
-    | some body => .next (sendResponse c (dropReceiver s rid) rid 200 body) []
+    | some body => .next (handlerResp c i (dropReceiver s rid) rid body) []
     | none =>
       -- l.639–646
       let r := pollRequest c i s
@@ -435,7 +447,7 @@ def pollGraceful (i : In) (s : St) : St :=
 /-- `poll_head_timer` (l.1031) -/
 def pollHeadTimer (c : Cfg) (i : In) (s : St) : St :=
   if s.headTimer.fired i.now then
-    { sendResponse c s 0 408 .empty with shutdown := true, headTimer := .inactive }
+    { sendErrorResponse c s 0 408 .empty with shutdown := true, headTimer := .inactive }
   else s
 
 /-- the keep-alive timer has fired (l.1079–1092 with fix 71715de): SHUTDOWN, clear the timer,
